@@ -151,27 +151,111 @@ def run_forked(fn, timeout_s, default):
     return out
 
 
-def vacuity(ex):
-    """two attempts (the second with a longer budget and another seed), so that a loaded machine does not flip it"""
-    for budget, seed in ((120, 1), (360, 7)):
-        out = run_forked(lambda: _vacuity(ex, seed), budget, [('assumptions-consistent', 'unknown (time limit)')])
-        if all(v == 'sat' or v == 'unsat' for _, v in out):
-            return out
+def run_forked_many(jobs, timeout_s, groups=None, good=None):
+    """run the callables concurrently, each in its own forked child, under one wall-clock limit; returns the list of
+    results (None for a child that did not finish).  With `groups` (one label per job) and `good` (predicate on a result),
+    the other members of a group are abandoned as soon as one member has delivered a good result."""
+    import pickle
+    import select
+    import signal
+    kids = []
+    for fn in jobs:
+        rfd, wfd = os.pipe()
+        pid = os.fork()
+        if pid == 0:
+            try:
+                os.close(rfd)
+                os.write(wfd, pickle.dumps(fn()))
+            except BaseException:
+                pass
+            finally:
+                os._exit(0)
+        os.close(wfd)
+        kids.append([pid, rfd, b'', False])
+    deadline = time.time() + timeout_s
+    settled = set()
+
+    def pending():
+        return [k for idx, k in enumerate(kids) if not k[3] and not (groups is not None and groups[idx] in settled)]
+    while time.time() < deadline and pending():
+        fds = [k[1] for k in pending()]
+        ready, _, _ = select.select(fds, [], [], max(0.05, min(1.0, deadline - time.time())))
+        for fd in ready:
+            idx = [i for i, x in enumerate(kids) if x[1] == fd][0]
+            k = kids[idx]
+            data = os.read(fd, 65536)
+            if data:
+                k[2] += data
+            else:
+                k[3] = True
+                if groups is not None and good is not None and k[2]:
+                    try:
+                        if good(pickle.loads(k[2])):
+                            settled.add(groups[idx])
+                    except Exception:
+                        pass
+    out = []
+    for pid, rfd, data, done in kids:
+        if not done:
+            try:
+                os.kill(pid, signal.SIGKILL)
+            except OSError:
+                pass
+        try:
+            os.close(rfd)
+        except OSError:
+            pass
+        try:
+            os.waitpid(pid, 0)
+        except OSError:
+            pass
+        try:
+            out.append(pickle.loads(data) if done and data else None)
+        except Exception:
+            out.append(None)
     return out
 
 
-def _vacuity(ex, seed=1):
+def vacuity(ex):
     """Every region in which obligations are proved must be satisfiable, otherwise they hold vacuously:
       * each loop body (an arbitrary iteration): the assumptions made up to the end of the body, with the body entered;
       * the function as a whole: all assumptions, and the normal exit reachable.
-    Quantified assumptions are left out.  For the whole-function query the solver is first given hints (not
-    assumptions): the contract's `witness` clauses and "no arbitrary iteration is entered", which make the havocked
-    loop-body states irrelevant; sat with hints implies sat without them, anything else falls back to the plain query."""
-    res = []
+    Quantified assumptions are left out.  The solver is given hints (never assumptions): the witness clauses of the contract /
+    the loop specification and "no arbitrary iteration of another loop is entered"; sat with hints implies sat without.
+    The queries run concurrently, each in its own process and with two seeds, under one generous wall-clock limit, so that a
+    loaded machine does not turn a satisfiable region into `unknown`."""
+    regions = getattr(ex, 'body_regions', [])
+    jobs, labels = [], []
+    for i, reg in enumerate(regions):
+        for seed in (1, 7):
+            jobs.append(lambda i=i, seed=seed: _vacuity_region(ex, i, seed))
+            labels.append(('%s-body-reachable' % reg['name'], i))
+    for seed in (1, 7):
+        jobs.append(lambda seed=seed: _vacuity_final(ex, seed))
+        labels.append(('final', None))
+    def good(res):
+        return res == 'sat' or (isinstance(res, list) and all(v == 'sat' for _, v in res))
+    results = run_forked_many(jobs, 420, groups=[lab + str(j) for lab, j in labels], good=good)
+    out = []
+    for i, reg in enumerate(regions):
+        vs = [r for (lab, j), r in zip(labels, results) if j == i and lab != 'final']
+        verdict = 'sat' if 'sat' in vs else ('unsat' if vs and all(v == 'unsat' for v in vs) else 'unknown')
+        out.append(('%s-body-reachable' % reg['name'], verdict))
+    finals = [r for (lab, j), r in zip(labels, results) if lab == 'final' and r]
+    best = None
+    for f in finals:
+        if all(v == 'sat' for _, v in f):
+            best = f
+            break
+    if best is None:
+        best = finals[0] if finals else [('assumptions-consistent', 'unknown (time limit)')]
+    return out + best
+
+
+def _qf_assumes(ex):
     memo = {}
 
     def has_q(t):
-        """iterative, memoised over the shared term DAG"""
         stack = [t]
         while stack:
             u = stack[-1]
@@ -191,58 +275,71 @@ def _vacuity(ex, seed=1):
             memo[i] = any(memo[c.get_id()] for c in ch)
             stack.pop()
         return memo[t.get_id()]
-    qf = [a for a in ex.assumes if not has_q(a)]
-    qf_ids = set(a.get_id() for a in qf)
+    return set(a.get_id() for a in ex.assumes if not has_q(a))
 
-    def solver(assumes):
-        s = z3.Solver()
-        s.set('timeout', max(Z3_TIMEOUT_MS, 90000))
-        s.set('random_seed', seed)
-        for a in assumes:
-            s.add(a)
-        return s
-    regions = getattr(ex, 'body_regions', [])
-    for reg in regions:
-        s = solver([a for a in ex.assumes[:reg.get('n_end', reg['n_begin'])] if a.get_id() in qf_ids])
+
+def _solver(assumes, seed):
+    s = z3.Solver()
+    s.set('timeout', 400000)
+    s.set('random_seed', seed)
+    for a in assumes:
+        s.add(a)
+    return s
+
+
+def _vacuity_region(ex, i, seed):
+    regions = ex.body_regions
+    reg = regions[i]
+    qf_ids = _qf_assumes(ex)
+    base = [a for a in ex.assumes[:reg.get('n_end', reg['n_begin'])] if a.get_id() in qf_ids]
+    s = _solver(base, seed)
+    s.add(reg['guard'])
+    for other in regions:
+        if other is not reg and other['n_begin'] < reg['n_begin'] and other.get('n_end', 0) <= reg['n_begin']:
+            s.add(Not(other['cond']))     # hint: iterations of earlier, already finished loops are irrelevant
+    if reg.get('witness') and seed == 1:
+        s.push()
+        for wt in reg['witness']:
+            s.add(wt)
+        if s.check() == z3.sat:
+            return 'sat'
+        s.pop()
+    r = s.check()
+    if r != z3.sat:
+        s = _solver(base, seed)
         s.add(reg['guard'])
-        for other in regions:
-            if other is not reg and other['n_begin'] < reg['n_begin'] and other.get('n_end', 0) <= reg['n_begin']:
-                s.add(Not(other['cond']))     # hint: iterations of earlier, already finished loops are irrelevant
         r = s.check()
-        if r != z3.sat:
-            s = solver([a for a in ex.assumes[:reg.get('n_end', reg['n_begin'])] if a.get_id() in qf_ids])
-            s.add(reg['guard'])
-            r = s.check()
-        res.append(('%s-body-reachable' % reg['name'], str(r)))
+    return str(r)
+
+
+def _vacuity_final(ex, seed):
+    regions = getattr(ex, 'body_regions', [])
+    qf_ids = _qf_assumes(ex)
+    qf = [a for a in ex.assumes if a.get_id() in qf_ids]
     negs = [Not(reg['cond']) for reg in regions]
     wit = list(getattr(ex, 'witness_terms', []))
-    verdicts = None
-    for hints in ([negs] if negs else []) + ([wit + negs, wit] if wit else []):
-        s = solver(qf)
-        s.set('timeout', 40000)
+    hint_sets = ([wit + negs, wit] if wit else []) + ([negs] if negs else [])
+    if seed != 1:
+        hint_sets = list(reversed(hint_sets))
+    for hints in hint_sets:
+        s = _solver(qf, seed)
+        s.set('timeout', 60000)
         for h in hints:
             s.add(h)
         s.add(ex.normal_guard)
         if s.check() == z3.sat:
-            verdicts = ('sat', 'sat')
-            break
-    if verdicts is None:
-        s = solver(qf)
-        r = s.check()
-        s.push()
-        s.add(ex.normal_guard)
+            return [('assumptions-consistent', 'sat'), ('normal-exit-reachable', 'sat')]
+    s = _solver(qf, seed)
+    r = s.check()
+    s.push()
+    s.add(ex.normal_guard)
+    r2 = s.check()
+    s.pop()
+    if r2 == z3.unsat and getattr(ex, 'allows_raises', False) and ex.raise_guards:
+        s.add(z3.Or(*ex.raise_guards))
         r2 = s.check()
-        s.pop()
-        verdicts = (str(r), str(r2))
-        if r2 == z3.unsat and getattr(ex, 'allows_raises', False) and ex.raise_guards:
-            s.add(z3.Or(*ex.raise_guards))
-            r2 = s.check()
-            res.append(('assumptions-consistent', verdicts[0]))
-            res.append(('declared-exceptional-exit-reachable', str(r2)))
-            return res
-    res.append(('assumptions-consistent', verdicts[0]))
-    res.append(('normal-exit-reachable', verdicts[1]))
-    return res
+        return [('assumptions-consistent', str(r)), ('declared-exceptional-exit-reachable', str(r2))]
+    return [('assumptions-consistent', str(r)), ('normal-exit-reachable', str(r2))]
 
 
 class Incremental(object):
